@@ -20,7 +20,7 @@ from vf.run import Result
 
 FORMATS = ["classic", "bytes", "extended", "extended-bytes", "xasm", "header"]
 
-INSTR = re.compile(r"^\s*(?:(\d+):)?\s*(-->)?\s*(>>)?\s*(\d+) (?:(\|[0-9a-f ]*\|) )?(\S+)(?:\s+(.*))?$")
+INSTR = re.compile(r"^\s*(?:(-?\d+):)?\s*(-->)?\s*(>>)?\s*(\d+) (?:(\|[0-9a-f ]*\|) )?(\S+)(?:\s+(.*))?$")
 EXC_ROW = re.compile(r"^  \d+ to -?\d+ -> \d+ \[\d+\]( lasti)?$")
 
 
@@ -64,8 +64,18 @@ class C12:
         @st.composite
         def case(draw):
             v = draw(st.sampled_from(ALL_VERSIONS))
-            k = draw(st.sampled_from(["prog", "prog", "stdlib", "asm"]))
+            k = draw(st.sampled_from(["prog", "prog", "stdlib", "asm", "table"]))
             sub = draw(st.integers(0, 3)) == 0
+            if k == "table":
+                # a drawn line / location table on a run of NOPs: the line-number column against CPython's dis
+                from vf.gen import tables as gt
+                vtup = pd.vt(v)
+                if vtup >= (3, 11):
+                    first = draw(st.sampled_from([1, 1, 5, 1000]))
+                    return {"k": "loctab", "v": v, "first": first, "entries": draw(gt.loctab_entries(first)), "exc": [], "subprocess": False}
+                c = draw(gt.lnotab_cases(vtup))
+                c.update({"k": "lnotab", "v": v, "subprocess": False})
+                return c
             if k == "asm" and draw(st.integers(0, 2)) == 0:
                 # the SAME code bytes listed as two versions, one after the other in this process (3.9 -> 3.10 changes
                 # what a jump operand means): a listing must not depend on what was listed before
@@ -122,9 +132,18 @@ class C12:
                 res.reject = "corpus-file-too-big-for-tier"
                 return res
             label = case["path"]
-        elif k in ("prog", "stdlib", "asm", "rawcode") and case.get("v") in ALL_VERSIONS:
+        elif k in ("prog", "stdlib", "asm", "rawcode", "lnotab", "loctab") and case.get("v") in ALL_VERSIONS:
             v = case["v"]
-            if k == "rawcode":
+            if k in ("lnotab", "loctab"):
+                if (k == "lnotab") != (pd.vt(v) < (3, 11)):
+                    res.reject = "malformed-case"
+                    return res
+                try:
+                    ref = self.pp.table_reference(case, ctx)
+                except (KeyError, TypeError, ValueError, IndexError):
+                    ref = {"reject": "malformed-table-case"}
+                k = "asm"
+            elif k == "rawcode":
                 tab = self.pp.tables(ctx, v)
                 ref = ctx.pool.ref(v).call("mkcode", fields=ga.code_fields(tab, rw.unhx(case["code"]), rw.hx), dis=True)
                 if "reject" not in ref and "referr" in ref["dis"][0]:
@@ -260,6 +279,13 @@ class C12:
                 if problems is None:
                     unmatched.remove(si)
                     # the marks against the producing CPython's own dis (when it exists for this file)
+                    if refdis is not None and si < len(refdis) and refdis[si].get("linestarts") and not set_lineno:
+                        shown = dict((int(m.group(4)), int(m.group(1)) if m.group(1) else None) for m in rows)
+                        for o, line in refdis[si]["linestarts"]:
+                            if line is not None and o in shown and shown[o] != line:
+                                res.fail(sig + "|line-number-vs-cpython", "%s: offset %d: CPython's dis starts line %s there, the listing shows %s" % (
+                                    label, o, line, shown[o]))
+                                return
                     if refdis is not None and si < len(refdis) and "instrs" in refdis[si]:
                         rj = dict((r["o"], r["j"]) for r in refdis[si]["instrs"])
                         for m in rows:
